@@ -31,7 +31,7 @@ RULE = ('models (table zoo, cond(correlation)<=1e8, configs gaussian/default/kde
 ASSUMPTIONS = ['near-singular models are excluded from the CDF part (scipy raises LinAlgError there); they are covered by C02']
 
 EPS = A.EPS32
-CONFIGS = ('gaussian-class', 'default', 'kde-instance', 'dict')
+CONFIGS = ('gaussian-class', 'default', 'kde-instance', 'dict', 'kde-wide-instance')
 
 
 def _tables(tier):
@@ -58,8 +58,77 @@ def cases(tier, seed):
     out = [(t, cfg, seed, 'fresh', tier) for cfg in CONFIGS for t in _tables(tier)]
     # E2 layer: the same object was fitted, queried (pdf, cdf, log pdf) on a differently dependent table, then re-fitted
     out += [(t, 'gaussian-class', seed, 'refit', tier) for t in _tables(tier)]
-    out.sort(key=lambda c: (c[1] != 'default', -c[0][0]))
+    # models whose fit had to regularise a singular correlation (duplicated / affinely related columns, fewer rows than
+    # columns): density and CDF are those of model.correlation as fitted - nothing is regularised a second time
+    for name in SINGULAR_TABLES:
+        for cfg in ('gaussian-class', 'default'):
+            out.append((('struct', name), cfg, seed, 'singular', tier))
+    out.sort(key=lambda c: (c[1] != 'default', -c[0][0] if isinstance(c[0][0], int) else 0))
     return out
+
+
+SINGULAR_TABLES = ('dup(x,x,y)', 'affine(x,3x+1)', 'dup-after-unrelated(a,b,c,b)', 'anti(x,-x,y)', 'two-rows', 'three-rows')
+
+
+def _singular(r, case):
+    (_, name), cfg = case[0], case[1]
+    df = tables.structural_tables()[name]
+    cols = list(df.columns)
+    tag = f'structural table {name}, config {cfg}'
+    r.tr()
+    r.nontriv()
+    r.state(('singular', name, cfg))
+    try:
+        gm = tables.fit_gm(df, cfg)
+    except Exception as e:
+        r.violation(f'C13:fit-raises:{type(e).__name__}', f'{tag}: fit raised {type(e).__name__}: {e}', case=case)
+        return r
+    C = np.asarray(gm.correlation.to_numpy(), float)
+    X = df.to_numpy(dtype=float)
+    Q = X[np.linspace(0, len(X) - 1, min(len(X), 9)).astype(int)]
+    S = ref_scores(gm, cols, Q)
+    try:
+        lp_ref = mvn.logpdf(S, C)
+    except np.linalg.LinAlgError:
+        r.outcome('singular:reference-not-defined')
+        r.hit('singular')
+        return r
+    with np.errstate(all='ignore'):
+        lp = np.asarray(gm.log_probability_density(pd.DataFrame(Q, columns=cols)), float)
+        p = np.asarray(gm.probability_density(pd.DataFrame(Q, columns=cols)), float)
+    r.tr(2)
+    r.ev(2 * len(Q))
+    # cond(C) ~ 1e7: the quadratic form amplifies the last bits of the scores, hence 1e-5 (a second regularisation moves the
+    # log density by log(sqrt 2) = 0.35 per collinear pair)
+    tol = 1e-5 * np.maximum(1, np.abs(lp_ref))
+    fin = np.isfinite(lp_ref) & (lp_ref > -700)          # below that the density underflows and its log is -inf
+    if lp.shape != lp_ref.shape or not np.all(np.abs(lp[fin] - lp_ref[fin]) <= tol[fin]):
+        i = int(np.argmax(np.where(fin, np.abs(lp - lp_ref), 0))) if lp.shape == lp_ref.shape else 0
+        r.violation('C13:singular:logpdf-value', f'{tag} (cond(correlation) = {np.linalg.cond(C):.2e}): log_probability_density of '
+                    f'training row {Q[i].tolist()} = {lp[i] if lp.shape == lp_ref.shape else lp.shape!r} but the MVN log density '
+                    f'with model.correlation is {lp_ref[i]!r}', case=case)
+    pos = p > 0
+    if p.shape != lp.shape or not np.allclose(np.log(p[pos]), lp[pos], rtol=1e-9, atol=1e-9):
+        r.violation('C13:logpdf', f'{tag}: log_probability_density != log(probability_density)', case=case)
+    if C.shape[0] == 2:
+        np.random.seed(7)
+        try:
+            c0 = np.asarray(gm.cumulative_distribution(pd.DataFrame(Q, columns=cols)), float)
+            ref = np.array([mvn.cdf2(S[i, 0], S[i, 1], float(np.clip(C[0, 1] / np.sqrt(C[0, 0] * C[1, 1]), -1 + 1e-12, 1 - 1e-12)))
+                            for i in range(len(Q))])
+            r.tr()
+            r.ev(len(Q))
+            # scipy's integration of a nearly singular bivariate normal is itself only good to ~1e-4
+            if not np.all(np.abs(c0 - ref) <= 5e-4):
+                i = int(np.argmax(np.abs(c0 - ref)))
+                r.violation('C13:singular:cdf-value', f'{tag}: cumulative_distribution(row {Q[i].tolist()}) = {c0[i]!r}, the normal '
+                            f'CDF at the scores is {ref[i]!r}', case=case)
+        except Exception as e:
+            r.violation(f'C13:cdf-raises:{type(e).__name__}', f'{tag}: cumulative_distribution raised {type(e).__name__}: {e}',
+                        case=case)
+    r.hit('singular')
+    r['sample'] = {'table': name, 'config': cfg, 'cond': float(np.linalg.cond(C))}
+    return r
 
 
 def ref_scores(gm, cols, X):
@@ -74,6 +143,8 @@ def run_case(case):
     t, cfg, seed, hist = case[:4]
     tier = case[4] if len(case) > 4 else 'quick'
     r = engine.new_result()
+    if hist == 'singular':
+        return _singular(r, case)
     r.state((t, cfg, hist))
     r.nontriv()
     df, info = tables.gaussian_copula_table(t, A.shift_from_seed(seed))
@@ -177,6 +248,27 @@ def run_case(case):
     r.ev(m * (k + 1))
     if not (np.allclose(rev, p0, rtol=1e-8, atol=0) and np.allclose(tiled[-1], p0, rtol=1e-8, atol=0)):
         r.violation('C13:batch-dependence', f'{tag}: pdf of a row depends on the other rows of the batch', case=case)
+
+    # the fitted model keeps no live reference to the caller's training table (ndarray and DataFrame buffers overwritten)
+    if hist == 'fresh' and d <= 4:
+        from copulas.multivariate import GaussianMultivariate
+        for cname, buf in (('ndarray', df.to_numpy(dtype=float).copy()),):      # (pandas copy-on-write: a frame has no in-place writes)
+            dist = tables.make_config(cfg, list(range(d)) if cname == 'ndarray' else cols)
+            g2 = GaussianMultivariate() if dist is None else GaussianMultivariate(distribution=dist)
+            try:
+                np.random.seed(12345)
+                g2.fit(buf)
+                qobj = Q.copy() if cname == 'ndarray' else base_df.copy()
+                before = np.asarray(g2.probability_density(qobj), float)
+                buf[:] = 9.75
+                after = np.asarray(g2.probability_density(Q.copy() if cname == 'ndarray' else base_df.copy()), float)
+                r.tr(3)
+                r.ev(2 * m)
+                if not np.array_equal(before, after, equal_nan=True):
+                    r.violation('C13:model-aliases-training-buffer', f'{tag}: probability_density changed after the caller '
+                                f'overwrote the {cname} that had been passed to fit', case=case)
+            except Exception as e:
+                r.violation(f'C13:raises-after-buffer-overwrite:{type(e).__name__}', f'{tag}: {type(e).__name__}: {e}', case=case)
 
     # long batches whose length is not a multiple of any plausible block size (rows must not be processed in chunks that
     # drop or misplace a tail)
